@@ -1102,7 +1102,7 @@ func genFunctionWrapper(n *node) func(*frame) reflect.Value {
 				// evaluation which was not cancelled, may be called long after its wrapper
 				// was created, possibly after a cancelled evaluation: the call belongs to
 				// the current run.
-				id = n.interp.runid()
+				id = n.interp.callID()
 			}
 			fr := newFrame(f, len(def.types), id)
 			if f.anc == nil {
@@ -2078,7 +2078,7 @@ func getFunc(n *node) {
 				// A closure created by an evaluation which was not cancelled may be called
 				// after the cancellation of another one: the call belongs to the current
 				// run, not to the one which created the closure.
-				id = n.interp.runid()
+				id = n.interp.callID()
 			}
 			fr2 := newFrame(fr, len(n.types), id)
 			d := fr2.data
